@@ -120,6 +120,14 @@ def run(tier):
         others.append(("m%d" % i, text))
     for i, (k, s) in enumerate(GM.stream(rng, 400 if tier == "quick" else 20000)):
         others.append(("x%d" % i, s))
+    # a module with k constants of other types before a module whose parameters and locals get the same
+    # resolution ids (nothing of the first module may end up in the IR of the second)
+    for kc in range(0, 8):
+        for ty, val in (("i64", "1000"), ("u8", "7"), ("bool", "true"), ("[2]i64", "[1, 2]")):
+            consts = "".join("const C%d: %s = %s;\n" % (j, ty, val) for j in range(kc))
+            ma = consts + "fn main() -> i32\n{\n\treturn: 0\n}\n"
+            mb = "pub struct Pair\n{\n\ta: i32,\n\tb: i32,\n}\npub fn make(x: i32, y: i32, z: i32) -> i32\n{\n\tvar p = Pair { a: x, b: y };\n\tvar q: [3]i32 = [x, y, z];\n\tvar w: i32 = z;\n\treturn: p.a + p.b + q[2] + w\n}\n"
+            others.append(("lk%d%s" % (kc, ty[:2].strip("[")), "//// module settings.pn\n%s//// module pair.pn\n%s" % (ma, mb)))
     # inputs on which the in-process verifier or LLVM itself is known to stop the compiler (listed C02 findings)
     # and programs that were once accepted with invalid IR: whenever such a program is accepted, its IR must be valid
     import glob, os
